@@ -734,7 +734,10 @@ theorem plainArg_noAssign (s : List Char) (h : plainArg s = true) : assignOf (di
 theorem simpleOk_plain (w : List Char) (ws : List (List Char)) (hw : plainArg w = true)
     (hws : ws.all plainArg = true) (hk : isKeyword w = false) (tail : List Char) :
     SimpleOk ⟨[], (w :: ws).map digitsWord, []⟩ tail := by
-  refine ⟨[], (w :: ws).map digitsWord, [], by simp [mkSimple], Or.inr (Or.inl (by simp)), ?_⟩
+  have hmk : (⟨[], (w :: ws).map digitsWord, []⟩ : SimpleCommand) = mkSimple [] ((w :: ws).map digitsWord) [] := by
+    simp [mkSimple]
+  rw [hmk]
+  refine simpleOk_of_mk [] ((w :: ws).map digitsWord) [] tail (Or.inr (Or.inl (by simp))) ?_
   have hfk : firstWordIsKeyword (mkSimple [] ((w :: ws).map digitsWord) []) = false := by
     simp [firstWordIsKeyword, mkSimple, wordLiteral_digitsWord, hk]
   have hp : simplePieces [] ((w :: ws).map digitsWord) [] = wordPieces ((w :: ws).map digitsWord) := by
